@@ -31,12 +31,23 @@ def main(ids):
         shutil.rmtree(os.path.join(WT, "deliver"), ignore_errors=True)
         res = {"id": i, "repo_head": head}
         demo = os.path.join(d, "demo")
-        has_demo = os.path.isdir(demo)
+        demo_rs = os.path.join(d, "demo.rs")
+        has_demo = os.path.isdir(demo) or os.path.exists(demo_rs)
         denv = dict(ENV, CARGO_TARGET_DIR="/tmp/confirm_target_demo")
-        if has_demo:
+        tdir = os.path.join(WT, "ciphercore-base", "tests")
+        if os.path.isdir(demo):
             shutil.copytree(demo, os.path.join(WT, "deliver", "demo"), ignore=shutil.ignore_patterns("target"))
-            rc, out, dt = sh(["cargo", "run", "--offline", "-j", "8"], os.path.join(WT, "deliver", "demo"), denv)
+            demo_cmd, demo_cwd = ["cargo", "run", "--offline", "-j", "8"], os.path.join(WT, "deliver", "demo")
+        elif has_demo:
+            # an integration-test file: run it as ciphercore-base/tests/seeded_demo.rs
+            os.makedirs(tdir, exist_ok=True)
+            shutil.copy(demo_rs, os.path.join(tdir, "seeded_demo.rs"))
+            demo_cmd, demo_cwd = ["cargo", "test", "--offline", "-j", "8", "-p", "ciphercore-base", "--test", "seeded_demo"], WT
+        if has_demo:
+            rc, out, dt = sh(demo_cmd, demo_cwd, denv)
             res["demo_without_change"] = {"exit": rc, "wall_s": dt, "tail": out[-600:]}
+            if os.path.exists(os.path.join(tdir, "seeded_demo.rs")):
+                os.remove(os.path.join(tdir, "seeded_demo.rs"))
         a = subprocess.run(["git", "-C", WT, "apply", os.path.join(d, "patch.diff")], capture_output=True, text=True)
         res["applies"] = a.returncode == 0
         if a.returncode == 0:
@@ -45,8 +56,12 @@ def main(ids):
             oks = [l for l in out.splitlines() if l.startswith("test result:")]
             res["test_suite_with_change"] = {"exit": rc, "wall_s": dt, "result_lines": oks}
             if has_demo:
-                rc, out, dt = sh(["cargo", "run", "--offline", "-j", "8"], os.path.join(WT, "deliver", "demo"), denv)
+                if os.path.exists(demo_rs) and not os.path.isdir(demo):
+                    os.makedirs(tdir, exist_ok=True)
+                    shutil.copy(demo_rs, os.path.join(tdir, "seeded_demo.rs"))
+                rc, out, dt = sh(demo_cmd, demo_cwd, denv)
                 res["demo_with_change"] = {"exit": rc, "wall_s": dt, "tail": out[-600:]}
+                shutil.rmtree(tdir, ignore_errors=True) if not os.path.exists(os.path.join(d, "keep_tests_dir")) and os.path.exists(os.path.join(tdir, "seeded_demo.rs")) and len(os.listdir(tdir)) == 1 else None
         subprocess.run(["git", "-C", WT, "checkout", "--", "."], capture_output=True)
         shutil.rmtree(os.path.join(WT, "deliver"), ignore_errors=True)
         res["confirmed"] = bool(res.get("applies") and res.get("test_suite_with_change", {}).get("exit") == 0
